@@ -23,6 +23,9 @@ type emitter struct {
 	// candidates of the resolve tie; rbad: those on which the direct check failed (always kept)
 	rinputs []input
 	rbad    map[string]bool
+	// the cases of the model of user-declared Object types (gentypeset.go tsIndex), with what the run observed
+	tsIn  []input
+	tsObs []Obs
 }
 
 func newEmitter() *emitter { return &emitter{seen: map[string]bool{}, rbad: map[string]bool{}} }
@@ -49,6 +52,50 @@ func (e *emitter) wantResolve(in input, bad bool) {
 	if !e.seen[k] {
 		e.seen[k] = true
 		e.rinputs = append(e.rinputs, in)
+	}
+}
+
+// wantTypeSet: every input that the generators of gentypeset.go registered as a model case is kept with its observation.
+func (e *emitter) wantTypeSet(in input, o Obs) {
+	if in.Kind != "parsetype" || o.Class == "skipped" {
+		return
+	}
+	if _, ok := tsIndex[in.bytes()]; !ok {
+		return
+	}
+	k := "ts:" + in.Hex
+	if !e.seen[k] {
+		e.seen[k] = true
+		e.tsIn = append(e.tsIn, in)
+		e.tsObs = append(e.tsObs, o)
+	}
+}
+
+// emitTypeSet writes cases_override_0.v and cases_params_0.v (coq/Corr/CorrC06.v: override_check, params_check).
+func (e *emitter) emitTypeSet(cfg *lib.Config, res *lib.Result) {
+	files := []struct {
+		name, typ, obl, expr string
+		codes                map[string]int
+	}{
+		{"override", "c06ocase", "override_model", "override_mismatches cases", overrideCodes},
+		{"params", "c06xcase", "params_model", "params_mismatches cases", paramsCodes},
+	}
+	for _, f := range files {
+		cf := &lib.CasesFile{Imports: []string{"Model.Base", "Model.ResolveObj", "Corr.CorrC06"}, Typ: f.typ,
+			Obligations: map[string]string{f.obl: f.expr}}
+		for i, in := range e.tsIn {
+			c := tsIndex[in.bytes()]
+			if c.file != f.name {
+				continue
+			}
+			cl := tsClass(e.tsObs[i], f.codes)
+			res.Count(fmt.Sprintf("corr.%s.class%d", f.name, cl))
+			cf.Add(fmt.Sprintf("%s %d%%nat", c.term, cl), in)
+		}
+		if len(cf.Cases) > 0 {
+			res.CorrFiles = append(res.CorrFiles, cf.WriteTo(cfg.Out, "cases_"+f.name+"_0"))
+			res.Extra["corr_"+f.name+"_cases"] = len(cf.Cases)
+		}
 	}
 }
 
@@ -186,6 +233,7 @@ func (e *emitter) emitResolve(cfg *lib.Config, res *lib.Result, pool *Pool) {
 
 func (e *emitter) emit(cfg *lib.Config, res *lib.Result, pool *Pool) {
 	e.emitResolve(cfg, res, pool)
+	e.emitTypeSet(cfg, res)
 	if len(e.inputs) == 0 {
 		return
 	}
